@@ -123,3 +123,33 @@ func ShapeSelfTest() string {
 	}
 	return ""
 }
+
+// rerunCheck replays a failure that has no operation list (the checking process panicked or was aborted by the runtime):
+// the quick check of that property is run again in a child process; its exit status is the verdict.
+func rerunCheck(rf *runner.ReplayFile) int {
+	prop := rf.Property
+	if p, ok := rf.Extra["property"].(string); ok && p != "" {
+		prop = p
+	}
+	self, err := os.Executable()
+	if err != nil || prop == "" {
+		fmt.Fprintln(os.Stderr, "can not re-run the check of this replay file")
+		return 2
+	}
+	fmt.Printf("re-running the quick check of %s\n", prop)
+	cmd := exec.Command(self, prop, "quick")
+	cmd.Stdout, cmd.Stderr = os.Stdout, os.Stderr
+	if err := cmd.Run(); err != nil {
+		if ee, ok := err.(*exec.ExitError); ok {
+			return ee.ExitCode()
+		}
+		return 2
+	}
+	fmt.Println("no failure")
+	return 0
+}
+
+func init() {
+	replayers["crash"] = rerunCheck
+	replayers["panic"] = rerunCheck
+}
